@@ -165,8 +165,110 @@ def id_uses():
     return uses
 
 
+MUTATORS = {"append", "add", "update", "setdefault", "pop", "clear", "extend", "insert", "remove", "discard", "popitem", "appendleft", "__setitem__"}
+CONTAINER_CTORS = {"dict", "list", "set", "defaultdict", "collections.defaultdict", "OrderedDict", "collections.OrderedDict", "Counter",
+                   "collections.Counter", "deque", "collections.deque", "bytearray"}
+# constructors whose result carries no state a generation could leave behind for the next one
+BENIGN_CTORS = {"re.compile", "logging.getLogger", "frozenset", "tuple", "str", "int", "float", "bool", "pathlib.Path", "Path", "os.path.join",
+                "os.path.dirname", "os.path.abspath", "object", "TypeVar", "typing.TypeVar", "enum.auto",
+                # declarations of per-instance attributes (attrs / dataclasses), not shared objects
+                "attrs.field", "attr.ib", "attr.attrib", "dataclasses.field", "field"}
+
+
+def state_sites():
+    """State that outlives one generation inside an interpreter: module-level (and class-level) containers that some function mutates,
+    rebinding of module names through `global`, memoising decorators, mutable default arguments, module-level objects of classes
+    whose instances may carry state.  A plugin's output may depend on such state only if it is re-initialised per generation."""
+    out = []
+    for f in sorted(GEN.rglob("*.py")):
+        rel = str(f.relative_to(REPO))
+        try:
+            tree = ast.parse(f.read_text(encoding="utf-8"))
+        except SyntaxError:
+            continue
+        par = parents(tree)
+        containers, objects = {}, {}
+
+        def classify(target, value, owner):
+            if not isinstance(target, ast.Name) or value is None:
+                return
+            if isinstance(value, (ast.Dict, ast.List, ast.Set, ast.DictComp, ast.ListComp, ast.SetComp)):
+                containers[target.id] = owner
+            elif isinstance(value, ast.Call):
+                ctor = ast.unparse(value.func)
+                if ctor in CONTAINER_CTORS:
+                    containers[target.id] = owner
+                elif ctor not in BENIGN_CTORS:
+                    objects[target.id] = (owner, ctor)
+
+        for st in tree.body:
+            if isinstance(st, ast.Assign) and len(st.targets) == 1:
+                classify(st.targets[0], st.value, "<module>")
+            elif isinstance(st, ast.AnnAssign):
+                classify(st.target, st.value, "<module>")
+            elif isinstance(st, ast.ClassDef):
+                for cst in st.body:
+                    if isinstance(cst, ast.Assign) and len(cst.targets) == 1:
+                        classify(cst.targets[0], cst.value, st.name)
+                    elif isinstance(cst, ast.AnnAssign):
+                        classify(cst.target, cst.value, st.name)
+        for name, (owner, ctor) in sorted(objects.items()):
+            out.append((rel, owner, "module-object", ctor))
+
+        def base_name(e):
+            """X, mod.X, cls.X, self.X, Class.X -> X"""
+            if isinstance(e, ast.Name):
+                return e.id
+            if isinstance(e, ast.Attribute):
+                return e.attr
+            return None
+
+        for fn in ast.walk(tree):
+            if not isinstance(fn, (ast.FunctionDef, ast.AsyncFunctionDef)):
+                continue
+            for dec in fn.decorator_list:
+                d = ast.unparse(dec)
+                if any(k in d for k in ("lru_cache", "functools.cache", "cached_property", "memoize")) or d in ("cache",):
+                    out.append((rel, fn.name, "memo-decorator", d[:60]))
+            for dflt in list(fn.args.defaults) + [d for d in fn.args.kw_defaults if d is not None]:
+                if isinstance(dflt, (ast.Dict, ast.List, ast.Set)) or (isinstance(dflt, ast.Call) and ast.unparse(dflt.func) in CONTAINER_CTORS):
+                    out.append((rel, fn.name, "mutable-default", ast.unparse(dflt)[:40]))
+            globs = set()
+            local_stores = set()
+            for n in ast.walk(fn):
+                if isinstance(n, ast.Global):
+                    globs |= set(n.names)
+            for n in ast.walk(fn):
+                if isinstance(n, ast.Name) and isinstance(n.ctx, ast.Store) and n.id not in globs:
+                    local_stores.add(n.id)
+            for a in fn.args.args + fn.args.kwonlyargs + ([fn.args.vararg] if fn.args.vararg else []) + ([fn.args.kwarg] if fn.args.kwarg else []):
+                local_stores.add(a.arg)
+            for n in ast.walk(fn):
+                if isinstance(n, ast.Name) and isinstance(n.ctx, ast.Store) and n.id in globs:
+                    out.append((rel, fn.name, "module-state", "global-rebind:" + n.id))
+                tgt = None
+                if isinstance(n, ast.Call) and isinstance(n.func, ast.Attribute) and n.func.attr in MUTATORS:
+                    tgt = n.func.value
+                elif isinstance(n, ast.Subscript) and isinstance(n.ctx, (ast.Store, ast.Del)):
+                    tgt = n.value
+                elif isinstance(n, ast.AugAssign):
+                    tgt = n.target.value if isinstance(n.target, ast.Subscript) else n.target
+                if tgt is None:
+                    continue
+                b = base_name(tgt)
+                if b is None or b not in containers and b not in objects:
+                    continue
+                if isinstance(tgt, ast.Name) and b in local_stores:
+                    continue          # a local of the same name shadows the module-level one
+                if isinstance(tgt, ast.Attribute) and containers.get(b, objects.get(b, ("",))[0] if b in objects else "") == "<module>" \
+                        and not (isinstance(tgt.value, ast.Name) and tgt.value.id not in ("self", "cls")):
+                    continue          # self.X / cls.X where X is a module-level name: a different object
+                out.append((rel, fn.name, "module-state", "mutated:" + b))
+    return sorted(set(out))
+
+
 def main():
-    sites = scan() + id_uses()
+    sites = scan() + id_uses() + state_sites()
     print("-- generated by tools/extract/x_nondet.py\nimport LspVerif.Core.Name\nopen LspVerif\nnamespace Gen")
     ents = [f"({lean_name(a)}, {lean_name(b)}, {lean_name(c)}, {lean_name(d)})" for a, b, c, d in sites]
     print(f"def nondetSites : List (Name × Name × Name × Name) := {lean_list(ents)}")
